@@ -19,12 +19,13 @@ for f in ["patch.diff", "demo.rs", "notes.md"]:
 notes = open(os.path.join(src, "notes.md")).read()
 import re
 first = notes.splitlines()[0] if notes else ""
-breaks = re.findall(r"C\d\d", first) if first.upper().startswith("BREAKS") else [prop]
-if not breaks: breaks = [prop]
+base = prop[3:] if prop.startswith("R5-") else prop
+breaks = re.findall(r"C\d\d", first) if first.upper().startswith("BREAKS") else [base]
+if not breaks: breaks = [base]
 meta = {
     "id": "%s-%s" % (prop, k),
     "breaks": breaks,
-    "source": ("sub-agent that saw only the text of property %s and its own scratch worktree of /repo (nothing from /verif)" % prop) if prop.startswith("C") else "round-2 sub-agent that saw the texts of properties C01-C19, a focus area of the code and its own scratch worktree of /repo (nothing from /verif)",
+    "source": ("round-5 sub-agent that saw only the text of property %s (asked for three kinds of change: two cooperating sites / multi-step sequence or rare API combination or unusual type / interleaving or fault at a particular point) and its own scratch worktree of /repo (nothing from /verif)" % base) if prop.startswith("R5-") else ("sub-agent that saw only the text of property %s and its own scratch worktree of /repo (nothing from /verif)" % prop) if prop.startswith("C") else "round-2 sub-agent that saw the texts of properties C01-C19, a focus area of the code and its own scratch worktree of /repo (nothing from /verif)",
     "needs_to_manifest": notes[:1200],
     "verified_by_me": {
         "demo_mode": mode,
